@@ -399,7 +399,7 @@ def make_machine(max_n: int):
 
 def plan(tier: str) -> list[dict]:
     if tier == "quick":
-        return [{"max_n": 5, "examples": 100, "steps": 30, "cost": 3} for _ in range(4)]
+        return [{"max_n": 5, "examples": 300, "steps": 30, "cost": 3} for _ in range(5)]
     return [{"max_n": 5, "examples": 1500, "steps": 60, "cost": 10} for _ in range(16)]
 
 
